@@ -1,4 +1,486 @@
 package main
 
-func cmdCheck(args []string) int  { return 0 }
-func cmdReplay(args []string) int { return 0 }
+import (
+	"encoding/json"
+	"flag"
+	"fmt"
+	"os"
+	"path/filepath"
+	"regexp"
+	"sort"
+	"strconv"
+	"strings"
+	"time"
+)
+
+// PropCfg: how one property is decided.
+type PropCfg struct {
+	ID       string
+	Families []string // obligation families generated for the functions under contract
+	// Sweep: additional functions (by key prefix) verified without contract for the given families
+	SweepPrefixes []string
+	SweepFamilies []string
+	Replay        string // decoder name
+	Composition   string // the unchecked step from per-function contracts to the property
+}
+
+var propCfgs = map[string]*PropCfg{}
+
+func registerProp(p *PropCfg) { propCfgs[p.ID] = p }
+
+type KnownFinding struct {
+	Property   string `json:"property"`
+	Obligation string `json:"obligation"` // function key + "#" + kind prefix, e.g. props.IntProps["//"]#POST.ensures2
+	Input      string `json:"input"`
+	What       string `json:"what"`
+	Status     string `json:"status"` // open | fixed:<commit>
+}
+
+type KnownFindings struct {
+	Findings []KnownFinding `json:"findings"`
+	Fixed    []string       `json:"fixed"`
+}
+
+func loadKnownFindings(path string) *KnownFindings {
+	kf := &KnownFindings{}
+	b, err := os.ReadFile(path)
+	if err != nil {
+		return kf
+	}
+	if err := json.Unmarshal(b, kf); err != nil {
+		fmt.Fprintln(os.Stderr, "known_findings.json:", err)
+	}
+	return kf
+}
+
+var ordinalRe = regexp.MustCompile(`(\.ret\d+)?@\d+$`)
+
+// stableName strips the return-point and ordinal suffixes: findings are keyed by function and clause.
+func stableName(n string) string { return ordinalRe.ReplaceAllString(n, "") }
+
+type Baseline struct {
+	Functions map[string]bool `json:"functions"`
+}
+
+func loadBaseline(path string) *Baseline {
+	b := &Baseline{Functions: map[string]bool{}}
+	data, err := os.ReadFile(path)
+	if err == nil {
+		json.Unmarshal(data, b)
+	}
+	return b
+}
+
+type oblReport struct {
+	Name    string            `json:"obligation"`
+	Family  string            `json:"family"`
+	Status  string            `json:"status"`
+	Solver  string            `json:"backend"`
+	Seconds float64           `json:"solver_s"`
+	Pos     string            `json:"pos,omitempty"`
+	Detail  string            `json:"detail,omitempty"`
+	Model   map[string]string `json:"model,omitempty"`
+	Confirm string            `json:"confirmed_by,omitempty"`
+}
+
+func verifRoot() string {
+	if v := os.Getenv("VERIF_ROOT"); v != "" {
+		return v
+	}
+	return "/verif"
+}
+
+func cmdCheck(args []string) int {
+	fs := flag.NewFlagSet("check", flag.ExitOnError)
+	repo := fs.String("repo", "/repo", "repository")
+	tier := fs.String("tier", "", "quick|thorough")
+	baselineMode := fs.Bool("write-baseline", false, "record the functions whose obligations all discharged")
+	// flags may follow the property id
+	var flagArgs, posArgs []string
+	for i := 0; i < len(args); i++ {
+		a := args[i]
+		if strings.HasPrefix(a, "-") {
+			flagArgs = append(flagArgs, a)
+			if !strings.Contains(a, "=") && (strings.TrimLeft(a, "-") == "tier" || strings.TrimLeft(a, "-") == "repo") && i+1 < len(args) {
+				i++
+				flagArgs = append(flagArgs, args[i])
+			}
+		} else {
+			posArgs = append(posArgs, a)
+		}
+	}
+	fs.Parse(append(flagArgs, posArgs...))
+	if fs.NArg() < 1 {
+		fmt.Fprintln(os.Stderr, "usage: gocv check <property> [--tier quick|thorough]")
+		return 2
+	}
+	id := fs.Arg(0)
+	if *tier == "" {
+		*tier = os.Getenv("VERIF_TIER")
+	}
+	if *tier == "" {
+		*tier = "quick"
+	}
+	seed, _ := strconv.Atoi(os.Getenv("VERIF_SEED"))
+	cfg := propCfgs[id]
+	if cfg == nil {
+		fmt.Fprintf(os.Stderr, "property %s has no check (see MANIFEST.json not_applicable)\n", id)
+		return 3
+	}
+	t0 := time.Now()
+	root := verifRoot()
+	work := filepath.Join(root, "work", id)
+	os.RemoveAll(work)
+	os.MkdirAll(work, 0o755)
+	replayDir := filepath.Join(root, "replay", id)
+	os.RemoveAll(replayDir)
+	os.MkdirAll(replayDir, 0o755)
+
+	w, err := LoadWorld(*repo)
+	if err != nil {
+		fmt.Fprintln(os.Stderr, "ERROR load:", err)
+		return 3
+	}
+	sp := ParseSpecs(w)
+	mods := NewModAnalysis(w, sp)
+	if len(sp.Errors) > 0 {
+		for _, e := range sp.Errors {
+			fmt.Println("ERROR spec:", e)
+		}
+		return 3
+	}
+	timeout := 8
+	confirm := false
+	if *tier == "thorough" {
+		timeout = 60
+		confirm = true
+	}
+	// functions under contract for this property
+	var targets []string
+	for _, k := range sp.Order {
+		c := sp.Contracts[k]
+		if c.Trusted {
+			continue
+		}
+		for _, p := range c.Props {
+			if p == id {
+				targets = append(targets, k)
+			}
+		}
+	}
+	exit := 0
+	// unbound contracts
+	for _, k := range targets {
+		if w.Funcs[k] == nil {
+			fmt.Printf("ERROR unbound-contract %s\n", k)
+			exit = 3
+		}
+	}
+	if exit != 0 {
+		return exit
+	}
+	results := verifyAll(w, sp, mods, targets, familySet(cfg.Families), work, timeout, confirm)
+	if len(cfg.SweepPrefixes) > 0 {
+		var sweep []string
+		under := map[string]bool{}
+		for _, k := range targets {
+			under[w.FuncKey[w.Funcs[k]]] = true
+		}
+		for _, fn := range w.AllFuncs {
+			k := w.FuncKey[fn]
+			if under[k] {
+				continue
+			}
+			for _, pre := range cfg.SweepPrefixes {
+				if strings.HasPrefix(k, pre) {
+					sweep = append(sweep, k)
+					break
+				}
+			}
+		}
+		results = append(results, verifyAll(w, sp, mods, sweep, familySet(cfg.SweepFamilies), work, timeout, confirm)...)
+	}
+	// lemmas
+	lemmaObls := verifyLemmas(w, sp, mods, id, work, timeout, confirm)
+
+	kf := loadKnownFindings(filepath.Join(root, "known_findings.json"))
+	base := loadBaseline(filepath.Join(root, "baseline_obligations.json"))
+
+	var reports []oblReport
+	nObl, nDis, nKnown, nViol, nUndecided := 0, 0, 0, 0, 0
+	solverTime := 0.0
+	var funcs []string
+	trusted := map[string]bool{}
+	var outOfReach []string
+	backends := map[string]int{}
+	passedFns := map[string]bool{}
+	knownPrinted := map[string]bool{}
+	var violLines []string
+	handle := func(fnKey string, inBaseline bool, o *Obligation) {
+		r := o.Result
+		rep := oblReport{Name: o.Name, Family: o.Family, Status: r.Status, Solver: r.Solver, Seconds: r.Seconds, Pos: o.Pos, Detail: o.Detail, Confirm: r.Confirm}
+		solverTime += r.Seconds
+		if o.Family == "VACUITY" {
+			// passes unless the background+requires is refuted
+			if r.Status == "unsat" {
+				rep.Status = "VACUOUS"
+				fmt.Printf("ERROR vacuous-precondition %s\n", o.Name)
+				exit = 3
+			} else {
+				rep.Status = "nonvacuous(" + r.Status + ")"
+			}
+			reports = append(reports, rep)
+			return
+		}
+		nObl++
+		if strings.HasPrefix(r.Confirm, "DISAGREE") {
+			fmt.Printf("ERROR solver-disagreement %s %s\n", o.Name, r.Confirm)
+			exit = 3
+		}
+		if r.Status == "unsat" {
+			nDis++
+			backends[r.Solver]++
+			reports = append(reports, rep)
+			return
+		}
+		passedFns[fnKey] = false
+		rep.Model = r.Model
+		// known finding?
+		sn := stableName(o.Name)
+		for _, f := range kf.Findings {
+			if f.Property == id && f.Status == "open" && f.Obligation == sn {
+				nKnown++
+				rep.Status = "known-finding(" + r.Status + ")"
+				reports = append(reports, rep)
+				if !knownPrinted[sn] {
+					knownPrinted[sn] = true
+					fmt.Printf("KNOWN-FINDING: property=%s %s: %s (input: %s)\n", id, sn, f.What, f.Input)
+				}
+				return
+			}
+		}
+		// replay
+		replayPath := filepath.Join(replayDir, sanitizeFile(o.Name)+".json")
+		verdict, decoded := "no-decoder", map[string]string{}
+		if r.Status == "sat" && cfg.Replay != "" {
+			verdict, decoded = runReplay(w, cfg.Replay, o, replayDir)
+		}
+		writeReplayFile(replayPath, id, o, verdict, decoded)
+		isViolation := inBaseline || verdict == "reproduced"
+		if !isViolation {
+			nUndecided++
+			rep.Status = "undecided(" + r.Status + ")"
+			reports = append(reports, rep)
+			fmt.Printf("UNDECIDED %s (%s; function not in baseline; %s)\n", o.Name, r.Status, o.Detail)
+			return
+		}
+		nViol++
+		rep.Status = "VIOLATION(" + r.Status + "," + verdict + ")"
+		reports = append(reports, rep)
+		suffix := ""
+		if verdict != "reproduced" {
+			suffix = " no-failing-input-found"
+		}
+		violLines = append(violLines, fmt.Sprintf("VIOLATION property=%s replay=%s%s", id, replayPath, suffix))
+		fmt.Printf("  failed obligation %s [%s] %s :: %s\n", o.Name, r.Status, o.Pos, o.Detail)
+	}
+	for _, r := range results {
+		if r.GenErr != "" {
+			fmt.Printf("ERROR engine %s: %s\n", r.Key, r.GenErr)
+			exit = 3
+			continue
+		}
+		if len(r.Unsupported) > 0 {
+			outOfReach = append(outOfReach, r.Key+": "+strings.Join(uniq(r.Unsupported), "; "))
+			if r.HasContract {
+				fmt.Printf("ERROR out-of-reach %s: %s\n", r.Key, strings.Join(uniq(r.Unsupported), "; "))
+				exit = 3
+			}
+			continue
+		}
+		funcs = append(funcs, r.Key)
+		for _, a := range r.Assumptions {
+			trusted[a] = true
+		}
+		if _, seen := passedFns[r.Key]; !seen {
+			passedFns[r.Key] = true
+		}
+		inBase := base.Functions[r.Key] || *baselineMode
+		for _, o := range r.Obligations {
+			handle(r.Key, inBase, o)
+		}
+	}
+	for _, o := range lemmaObls {
+		handle(o.Fn, true, o)
+	}
+	for _, l := range violLines {
+		fmt.Println(l)
+	}
+	if nViol > 0 && exit == 0 {
+		exit = 1
+	}
+	if nObl == 0 {
+		fmt.Println("ERROR no obligations generated (vacuous run)")
+		exit = 3
+	}
+	// contracts assumed but not verified here
+	var assumedContracts []string
+	for _, k := range sp.Order {
+		c := sp.Contracts[k]
+		if c.Trusted {
+			assumedContracts = append(assumedContracts, "trusted contract (body not verified): "+k)
+		}
+	}
+	for _, ax := range sp.Axioms {
+		assumedContracts = append(assumedContracts, "axiom "+ax.Name+": "+ax.Text)
+	}
+	for _, a := range mods.FinalAssumptions {
+		assumedContracts = append(assumedContracts, a)
+	}
+	sort.Strings(funcs)
+	tb := sortedKeys(trusted)
+	tb = append(tb, "go/packages+go/types+go/ssa (x/tools v0.29.0) front end; gocv SSA->SMT translation", "SMT solvers: z3 4.8.12, z3-new 5.1.0, cvc5 1.0.3")
+	samples := []oblReport{}
+	for i, r := range reports {
+		if i < 8 || strings.HasPrefix(r.Status, "VIOLATION") || strings.HasPrefix(r.Status, "known") {
+			samples = append(samples, r)
+		}
+		if len(samples) > 40 {
+			break
+		}
+	}
+	ev := map[string]interface{}{
+		"property_id": id, "tier": *tier, "seed": seed, "level": "proof",
+		"coverage": map[string]interface{}{
+			"obligations": nObl - nKnown, "discharged": nDis,
+			"known_finding_obligations": nKnown, "violating_obligations": nViol, "undecided_obligations": nUndecided,
+			"checker_cmd":              fmt.Sprintf("/verif/bin/gocv check %s --tier %s (weakest-precondition VCs over go/ssa of /repo, discharged by z3/z3-new/cvc5)", id, *tier),
+			"trusted_base":             tb,
+			"functions_under_contract": funcs,
+			"backends":                 backends,
+			"solver_time_s":            round2(solverTime),
+			"out_of_reach":             outOfReach,
+			"samples":                  samples,
+			"integers":                 "mathematical Int with explicit wrap64/wrapN at every fixed-width arithmetic result; truncated division axiomatised per the Go spec",
+			"composition_unchecked":    cfg.Composition,
+			"bounded_stand_ins":        []string{},
+		},
+		"assumptions": append(assumedContracts, standingAssumptions...),
+		"wall_s":      round2(time.Since(t0).Seconds()),
+		"violations":  nViol,
+	}
+	os.MkdirAll(filepath.Join(root, "evidence"), 0o755)
+	data, _ := json.MarshalIndent(ev, "", " ")
+	os.WriteFile(filepath.Join(root, "evidence", id+".json"), data, 0o644)
+	// full per-obligation report for inspection
+	full, _ := json.MarshalIndent(reports, "", " ")
+	os.WriteFile(filepath.Join(work, "obligations.json"), full, 0o644)
+	if *baselineMode {
+		for k, ok := range passedFns {
+			if ok {
+				base.Functions[k] = true
+			}
+		}
+		bd, _ := json.MarshalIndent(base, "", " ")
+		os.WriteFile(filepath.Join(root, "baseline_obligations.json"), bd, 0o644)
+	}
+	fmt.Printf("property=%s tier=%s functions=%d obligations=%d discharged=%d known=%d violations=%d undecided=%d wall=%.1fs\n",
+		id, *tier, len(funcs), nObl, nDis, nKnown, nViol, nUndecided, time.Since(t0).Seconds())
+	return exit
+}
+
+var standingAssumptions = []string{
+	"amd64: int is 64 bit; len/cap of any slice, string or map <= 2^48",
+	"symhash (FNV-1a, object.GetSymHash) is injective on the strings a run uses",
+	"closed world: the implementers of repository interfaces are the types in the loaded program",
+	"partial correctness: termination, stack depth and memory exhaustion are not verified",
+	"floats, string contents, shifts and bit operations are uninterpreted",
+	"package-level variables assigned only during package initialisation are constants; pointer-typed ones are non-nil and pairwise distinct per type (checked by executing initialisation: GLOBALINV)",
+	"fields never stored to outside the initialisation of a fresh allocation (inferred over the whole repository on every run) are modelled as immutable functions of the reference",
+}
+
+func round2(f float64) float64 { return float64(int(f*100+0.5)) / 100 }
+
+func uniq(xs []string) []string {
+	m := map[string]bool{}
+	var out []string
+	for _, x := range xs {
+		if !m[x] {
+			m[x] = true
+			out = append(out, x)
+		}
+	}
+	return out
+}
+
+func familySet(fs []string) map[string]bool {
+	if len(fs) == 0 {
+		return nil
+	}
+	m := map[string]bool{}
+	for _, f := range fs {
+		m[f] = true
+	}
+	return m
+}
+
+func writeReplayFile(path, id string, o *Obligation, verdict string, decoded map[string]string) {
+	r := o.Result
+	data := map[string]interface{}{
+		"property": id, "obligation": o.Name, "family": o.Family, "position": o.Pos, "detail": o.Detail,
+		"solver_status": r.Status, "solver": r.Solver, "tried": r.Tried, "model": r.Model, "model_from_reduced_query": r.Reduced,
+		"decoded_input": decoded, "replay_verdict": verdict, "solver_output": truncate(r.Raw, 4000),
+	}
+	b, _ := json.MarshalIndent(data, "", " ")
+	os.WriteFile(path, b, 0o644)
+}
+
+// verifyLemmas discharges the `lemma` clauses tagged with the property.
+func verifyLemmas(w *World, sp *Specs, mods *ModAnalysis, id, work string, timeoutS int, confirm bool) []*Obligation {
+	var out []*Obligation
+	for _, lm := range sp.Lemmas {
+		tagged := false
+		for _, p := range lm.Props {
+			if p == id {
+				tagged = true
+			}
+		}
+		if !tagged {
+			continue
+		}
+		// a lemma is verified in the context of an arbitrary function: use a tiny ctx on the first repo function
+		c := NewCtx(w, sp, mods, w.AllFuncs[0], nil)
+		c.key = "lemma." + lm.Name
+		st := &State{heap: map[string]string{}, locals: nil, alloc: "alloc_entry", held: "0"}
+		c.declare("alloc_entry", "Int")
+		c.assume("true", "(> alloc_entry nglobals)")
+		c.entry = st
+		c.emitAxioms(st)
+		ev := c.newSpecEval(nil, st, st)
+		ev.pkg = lm.Pkg
+		tv, err := ev.eval(lm.Expr)
+		if err != nil {
+			fmt.Printf("ERROR lemma %s: %v\n", lm.Name, err)
+			continue
+		}
+		o := &Obligation{Name: "lemma." + lm.Name + "#LEMMA", Family: "LEMMA", Fn: "lemma." + lm.Name, Upto: len(c.lines), Reach: "true", Goal: tv.T,
+			Detail: lm.Text, ctx: c, Track: map[string]string{}}
+		o.Result = Solve(o, work, timeoutS, confirm)
+		out = append(out, o)
+	}
+	return out
+}
+
+func cmdReplay(args []string) int {
+	if len(args) < 1 {
+		fmt.Fprintln(os.Stderr, "usage: gocv replay <file.json>")
+		return 2
+	}
+	b, err := os.ReadFile(args[0])
+	if err != nil {
+		fmt.Fprintln(os.Stderr, err)
+		return 2
+	}
+	fmt.Println(string(b))
+	return 0
+}
